@@ -22,6 +22,16 @@ def keys():
     return _KEYS
 
 
+def key(kind):
+    """keys()[kind]; the RSA-4096 key (512-byte signatures, thorough tier only) is generated on first use"""
+    ks = keys()
+    if kind == 'rsa4096' and kind not in ks:
+        from Cryptodome.PublicKey import RSA
+        k = RSA.generate(4096)
+        ks[kind] = (k.export_key('DER'), k.publickey())
+    return ks[kind]
+
+
 class SynthSigner:
     """announces `reserved` bytes and writes `real` bytes derived from the covered content"""
     def __init__(self, reserved, real, sig_type=200):
@@ -41,9 +51,35 @@ class SynthSigner:
         return self.real
 
 
-def make_signer(spec):
-    """spec: ['none'] | ['digest', for_interest] | ['hmac'] | ['ec256'|'ec384'|'ec521'] | ['rsa2048'] | ['ed25519']
-             | ['null'] | ['synth', reserved, real]"""
+class CustomSigner(SynthSigner):
+    """a SynthSigner whose write_signature_info fills every SignatureInfo field the caller asks for: SignatureType,
+    KeyLocator (Name or KeyDigest), SignatureNonce / SignatureTime / SignatureSeqNum at any integer width"""
+    def __init__(self, reserved, real, si):
+        super().__init__(reserved, real, si.get('type', 200))
+        self.sinfo = si
+
+    def write_signature_info(self, si):
+        from ndn.encoding import KeyLocator
+        d = self.sinfo
+        si.signature_type = d.get('type', 200)
+        kl = d.get('kl')
+        if kl is None:
+            si.key_locator = None
+        else:
+            si.key_locator = KeyLocator()
+            if kl[0] == 'name':
+                si.key_locator.name = [bytes.fromhex(c) for c in kl[1]]
+            else:
+                si.key_locator.key_digest = bytes.fromhex(kl[1])
+        si.signature_nonce = d.get('nonce')
+        si.signature_time = d.get('time')
+        si.signature_seq_num = d.get('seq')
+
+
+def make_signer(spec, key_name=None):
+    """spec: ['none'] | ['digest', for_interest] | ['hmac'] | ['ec256'|'ec384'|'ec521'] | ['rsa2048'|'rsa4096'] | ['ed25519']
+             | ['null'] | ['synth', reserved, real] | ['custom', reserved, real, {SignatureInfo fields}]
+       key_name: the KeyLocator Name for the keyed signers (list of encoded components); a default when None"""
     from ndn import security as sec
     k = spec[0]
     if k == 'none':
@@ -51,18 +87,86 @@ def make_signer(spec):
     if k == 'digest':
         return sec.DigestSha256Signer(bool(spec[1]))
     if k == 'hmac':
-        return sec.HmacSha256Signer('/k/hmac', b'secret-key-0123')
+        return sec.HmacSha256Signer('/k/hmac' if key_name is None else key_name, b'secret-key-0123')
     if k.startswith('ec'):
-        return sec.Sha256WithEcdsaSigner('/k/' + k, keys()[k][0])
-    if k == 'rsa2048':
-        return sec.Sha256WithRsaSigner('/k/rsa', keys()[k][0])
+        return sec.Sha256WithEcdsaSigner('/k/' + k if key_name is None else key_name, keys()[k][0])
+    if k.startswith('rsa'):
+        return sec.Sha256WithRsaSigner('/k/rsa' if key_name is None else key_name, key(k)[0])
     if k == 'ed25519':
-        return sec.Ed25519Signer('/k/ed', keys()[k][0])
+        return sec.Ed25519Signer('/k/ed' if key_name is None else key_name, keys()[k][0])
     if k == 'null':
         return sec.NullSigner()
     if k == 'synth':
         return SynthSigner(spec[1], spec[2])
+    if k == 'custom':
+        return CustomSigner(spec[1], spec[2], spec[3])
     raise ValueError(spec)
+
+
+# ------------------------------------------------------------------------------------- forms of a name
+_UNRESERVED = set(b'ABCDEFGHIJKLMNOPQRSTUVWXYZabcdefghijklmnopqrstuvwxyz0123456789-._~')
+
+
+def _split_comp(c):
+    """(type, value) of an encoded component, read by hand"""
+    def num(o):
+        b = c[o]
+        if b <= 0xFC:
+            return b, 1
+        w = {0xFD: 2, 0xFE: 4, 0xFF: 8}[b]
+        return int.from_bytes(c[o + 1:o + 1 + w], 'big'), 1 + w
+    t, a = num(0)
+    _, b = num(a)
+    return t, bytes(c[a + b:])
+
+
+def uri_comp(c):
+    """NDN URI text of one encoded component, written from the NDN URI scheme (not with the library):
+    [<type>=]<value with every byte outside ALPHA / DIGIT / - . _ ~ percent-encoded>; the two digest types by name"""
+    t, v = _split_comp(bytes(c))
+    if t == 1:
+        return 'sha256digest=' + v.hex()
+    if t == 2:
+        return 'params-sha256=' + v.hex()
+    alldots = bool(v) and all(b == 0x2e for b in v)
+    txt = ''.join(chr(b) if (b in _UNRESERVED and not alldots) else '%%%02X' % b for b in v)
+    return txt if t == 8 else f'{t}={txt}'
+
+
+def uri_name(comps):
+    s = '/' + '/'.join(uri_comp(c) for c in comps)
+    if comps and bytes(comps[-1]) == b'\x08\x00':
+        s += '/'
+    return s
+
+
+NAME_FORMS = ['comps', 'comps', 'comps', 'uri', 'strs', 'wire', 'wire_mv', 'mixed']
+
+
+def name_in_form(comps, form, seed=0):
+    """the same name as the caller may hand it to make_* (NonStrictName): list of encoded components, URI string,
+    list of URI-component strings, the encoded Name TLV (bytes / memoryview over a bytearray), or a mix"""
+    import random
+    comps = [bytes(c) for c in comps]
+    if form in (None, 'comps'):
+        return comps
+    if form == 'uri':
+        return uri_name(comps)
+    if form == 'strs':
+        return [uri_comp(c) for c in comps]
+    if form in ('wire', 'wire_mv'):
+        body = b''.join(comps)
+        w = T.tl(7) + T.tl(len(body)) + body
+        return w if form == 'wire' else memoryview(bytearray(w))
+    if form == 'mixed':
+        r = random.Random(seed)
+        out = []
+        for c in comps:
+            k = r.choice(['bytes', 'bytearray', 'memoryview', 'str'])
+            out.append(c if k == 'bytes' else bytearray(c) if k == 'bytearray' else memoryview(c) if k == 'memoryview'
+                       else uri_comp(c))
+        return out if r.random() < 0.7 else tuple(out)
+    raise ValueError(form)
 
 
 class Recorder:
@@ -170,6 +274,79 @@ def rand_synth(rng):
     return ['synth', reserved, real]
 
 
+INT_EDGES = [0, 1, 255, 256, 65535, 65536, 2 ** 32 - 1, 2 ** 32, 2 ** 63, 2 ** 64 - 1]
+
+
+def sized_comp(rng, vlen, typ=None):
+    """one component whose Value has exactly vlen bytes (Type 1-byte or 3-byte form)"""
+    from ndn.encoding import Component
+    typ = typ or rng.choice([8, 8, 32, 252, 253, 65535])
+    blk = bytes(rng.getrandbits(8) for _ in range(16))
+    return bytes(Component.from_bytes((blk * (vlen // 16 + 1))[:vlen], typ))
+
+
+def near(rng, big_ok):
+    """a length next to a point where a TLV Length (or Type) number changes form"""
+    base = rng.choice([253, 253, 253, 65536] if big_ok else [253])
+    return max(0, base + rng.randint(-6, 3))
+
+
+def sized_name(rng, total, single=False):
+    """a name whose encoded components total exactly `total` bytes where possible"""
+    comps = [] if single else [rand_comp(rng) for _ in range(rng.choice([0, 1, 2, 5]))]
+    rest = total - sum(len(c) for c in comps)
+    if rest >= 2:
+        t = rng.choice([8, 8, 32, 253])
+        th = 1 if t < 253 else 3
+        n = rest - th - 1 if rest - th - 1 < 253 else rest - th - 3
+        if n >= 0:
+            comps.insert(rng.randint(0, len(comps)), sized_comp(rng, n, t))
+    return comps
+
+
+def rand_custom(rng, big_ok=False):
+    """a signer whose write_signature_info sets unusual SignatureInfo fields"""
+    reserved = rng.choice([0, 1, 32, 64, 72, 200, 252, 253, 256, 512])
+    real = reserved if (reserved >= 253 or rng.random() < 0.4) else rng.randint(0, reserved)
+    r = rng.random()
+    if r < 0.3:
+        kl = None
+    elif r < 0.65:
+        kl = ['name', [c.hex() for c in (sized_name(rng, near(rng, big_ok)) if rng.random() < 0.5 else rand_name(rng))]]
+    else:
+        n = rng.choice([0, 1, 32, 32, 64, near(rng, False)])
+        kl = ['digest', bytes(rng.getrandbits(8) for _ in range(min(n, 300))).hex()]
+    si = {'type': rng.choice([0, 1, 3, 4, 5, 200, 255, 7]), 'kl': kl,
+          'nonce': rng.choice([None, None] + INT_EDGES), 'time': rng.choice([None, None] + INT_EDGES),
+          'seq': rng.choice([None, None] + INT_EDGES)}
+    return ['custom', reserved, real, si]
+
+
+KEYED = ('hmac', 'ec256', 'ec384', 'ec521', 'rsa2048', 'rsa4096', 'ed25519')
+
+
+def _stress_common(rng, c, tier):
+    """dimensions shared by Data and Interest: the form the name is handed over in, one long component, a long
+    KeyLocator name for the keyed signers, a signer writing unusual SignatureInfo fields, RSA-4096 (thorough)"""
+    big_ok = tier != 'quick' and rng.random() < 0.15
+    r = rng.random()
+    if r < 0.3:
+        c['name_form'] = rng.choice(NAME_FORMS[3:])
+    if rng.random() < 0.25:
+        keep = [x for x in c['name'] if x.startswith('02')]
+        nm = sized_name(rng, near(rng, big_ok) - (34 if rng.random() < 0.5 else 0), single=rng.random() < 0.5)
+        c['name'] = [x.hex() for x in nm] + keep[:1]
+    if rng.random() < 0.3:
+        if c['signer'][0] in KEYED and rng.random() < 0.7:
+            c['key_name'] = [x.hex() for x in sized_name(rng, near(rng, big_ok) - rng.choice([0, 0, 4, 9]))]
+        else:
+            c['signer'] = rand_custom(rng, big_ok)
+    if tier != 'quick' and rng.random() < 0.03:
+        c['signer'] = ['rsa4096']
+    if c['signer'][0] in KEYED and 'key_name' not in c and rng.random() < 0.1:
+        c['key_name'] = [x.hex() for x in rand_name(rng)]
+
+
 def gen_data_case(rng, tier):
     signer = rng.choice(SIGNERS) if rng.random() < 0.75 else rand_synth(rng)
     if tier == 'quick' and signer[0] == 'rsa2048' and rng.random() < 0.7:
@@ -180,8 +357,20 @@ def gen_data_case(rng, tier):
     mi = {'content_type': rng.choice([None, 0, 1, 2, 3, 255, 256, 70000]),
           'freshness_period': rng.choice([None, 0, 1, 1000, 2 ** 32, 2 ** 63]),
           'final_block_id': rng.choice([None, None, rand_comp(rng).hex()])}
-    return {'pkt': 'data', 'name': [c.hex() for c in _tier_name(rng, tier)], 'meta': rng.choice([mi, mi, mi, None]),
-            'content': rng.choice([None, size, size, size]), 'seed': rng.getrandbits(32), 'signer': signer}
+    c = {'pkt': 'data', 'name': [c.hex() for c in _tier_name(rng, tier)], 'meta': rng.choice([mi, mi, mi, None]),
+         'content': rng.choice([None, size, size, size]), 'seed': rng.getrandbits(32), 'signer': signer}
+    if rng.random() < 0.45:
+        _stress_common(rng, c, tier)
+        r = rng.random()
+        if r < 0.25:
+            # MetaInfo integers at every width; a FinalBlockId long enough to move MetaInfo's own Length across 253
+            c['meta'] = {'content_type': rng.choice([None] + INT_EDGES), 'freshness_period': rng.choice([None] + INT_EDGES),
+                         'final_block_id': rng.choice([None, sized_comp(rng, max(0, near(rng, False) - rng.choice([2, 4, 8, 12]))).hex()])}
+        elif r < 0.35:
+            c['meta'] = {'content_type': None, 'freshness_period': None, 'final_block_id': None}    # present but empty
+        if rng.random() < 0.2:
+            c['content'] = 0                                                                        # present but empty
+    return c
 
 
 def gen_interest_case(rng, tier):
@@ -205,8 +394,33 @@ def gen_interest_case(rng, tier):
              'lifetime': rng.choice([None, 0, 1, 4000, 65535, 65536, 2 ** 40]),
              'hop_limit': rng.choice([None, 0, 7, 255]),
              'forwarding_hint': [[c.hex() for c in rand_name(rng)] for _ in range(rng.choice([0, 0, 1, 2]))]}
-    return {'pkt': 'interest', 'name': [c.hex() for c in name], 'param': param, 'app': ap,
-            'seed': rng.getrandbits(32), 'signer': signer}
+    c = {'pkt': 'interest', 'name': [c.hex() for c in name], 'param': param, 'app': ap,
+         'seed': rng.getrandbits(32), 'signer': signer}
+    if rng.random() < 0.45:
+        _stress_common(rng, c, tier)
+        if c['signer'][0] == 'none' and c['app'] is None:
+            c['name'] = [x for x in c['name'] if not x.startswith('02')]
+        big_ok = tier != 'quick' and rng.random() < 0.1
+        r = rng.random()
+        if r < 0.3:
+            # ForwardingHint: many names, or names long enough to move the Length of Links / of one Name across 253
+            k = rng.random()
+            if k < 0.4:
+                fh = [rand_name(rng) if rng.random() < 0.3 else [rand_comp(rng)] for _ in range(rng.choice([3, 8, 20, 40]))]
+            elif k < 0.8:
+                fh = [sized_name(rng, near(rng, big_ok) - rng.choice([0, 2, 4])) for _ in range(rng.choice([1, 1, 2]))]
+            else:
+                per = rng.choice([20, 50])
+                fh = [sized_name(rng, per - 2) for _ in range(max(1, near(rng, False) // per))] + [sized_name(rng, rng.randint(0, 12))]
+            c['param'] = dict(c['param'], forwarding_hint=[[x.hex() for x in n] for n in fh])
+            if rng.random() < 0.4:
+                c['fh_form'] = rng.choice(NAME_FORMS[3:])
+        if rng.random() < 0.25:
+            c['param'] = dict(c['param'], nonce=rng.choice([0, 1, 255, 256, 65535, 65536, 2 ** 32 - 1]),
+                              lifetime=rng.choice(INT_EDGES), hop_limit=rng.choice([0, 1, 254, 255]))
+        if rng.random() < 0.2:
+            c['app'] = 0                                                                            # present but empty
+    return c
 
 
 def payload(case, n):
@@ -232,9 +446,10 @@ def make_packet(case):
     """returns dict: made wire (or error), what the signer saw, and the model's input values"""
     from ndn import encoding as enc
     out = {}
-    inner = make_signer(case['signer'])
+    kn = case.get('key_name')
+    inner = make_signer(case['signer'], None if kn is None else [bytes.fromhex(c) for c in kn])
     rec = Recorder(inner) if inner is not None else None
-    name = [bytes.fromhex(c) for c in case['name']]
+    name = name_in_form([bytes.fromhex(c) for c in case['name']], case.get('name_form'), case['seed'])
     try:
         if case['pkt'] == 'data':
             m = case['meta']
@@ -248,7 +463,8 @@ def make_packet(case):
             p = case['param']
             ip = enc.InterestParam(can_be_prefix=p['can_be_prefix'], must_be_fresh=p['must_be_fresh'], nonce=p['nonce'],
                                    lifetime=p['lifetime'], hop_limit=p['hop_limit'],
-                                   forwarding_hint=[[bytes.fromhex(c) for c in n] for n in p['forwarding_hint']])
+                                   forwarding_hint=[name_in_form([bytes.fromhex(c) for c in n], case.get('fh_form'), case['seed'] + i)
+                                                    for i, n in enumerate(p['forwarding_hint'])])
             ap = None if case['app'] is None else payload(case, case['app'])
             wire, fn = enc.make_interest(name, ip, ap, signer=rec, need_final_name=True)
             wire = bytes(wire)
@@ -275,12 +491,17 @@ def parse_packet(kind, wire):
         if kind == 'data':
             name, mi, content, sp = enc.parse_data(wire)
             cls, outer = f.DataPacketValue, 6
+            api = {'content_type': mi.content_type, 'freshness_period': mi.freshness_period,
+                   'final_block_id': None if mi.final_block_id is None else bytes(mi.final_block_id).hex()}
         else:
             name, ip, content, sp = enc.parse_interest(wire)
             cls, outer = f.InterestPacketValue, 5
+            api = {'can_be_prefix': ip.can_be_prefix, 'must_be_fresh': ip.must_be_fresh, 'nonce': ip.nonce,
+                   'lifetime': ip.lifetime, 'hop_limit': ip.hop_limit,
+                   'forwarding_hint': [[bytes(c).hex() for c in enc.Name.normalize(n)] for n in ip.forwarding_hint]}
         fs = T.class_schema(cls)
         inst = cls.parse(parse_and_check_tl(wire, outer))
-        return {'res': 'ok', 'values': T.values_text(T.from_instance(fs, inst)),
+        return {'res': 'ok', 'values': T.values_text(T.from_instance(fs, inst)), 'api': api,
                 'name': [bytes(c).hex() for c in name],
                 'content': None if content is None else bytes(content).hex(),
                 'SC': [x.hex() for x in _ranges_to_bytes(sp.signature_covered_part)],
